@@ -6,8 +6,8 @@ From EphVerif Require Import lib.Bytes model.Sha256Model model.KeyExchangeModel 
   proofs.MessageProofs proofs.KeyExchangeProofs model.RotationModel.
 
 (* keep the unifier and the kernel from unfolding SHA-256 on symbolic data while comparing record fields *)
-Lemma handshake_end_registers priv mp rp iv now :
-  e_ctx (handshake_end priv mp rp iv now) =
+Lemma handshake_end_registers priv mp rp iv cd now :
+  e_ctx (handshake_end priv mp rp iv cd now) =
   register_with_material (derive_shared_secret priv rp) (make_handshake_material mp rp) now.
 Proof. unfold handshake_end, register_with_material, session_key. reflexivity. Qed.
 Local Opaque hmac session_key derive_shared_secret compute_public.
@@ -71,21 +71,30 @@ Qed.
 
 (* ---------- the pair ---------- *)
 Definition SysInv (s : sys) : Prop := EndInv (s_a s) /\ EndInv (s_b s).
+Lemma rehandshake_end_inv e now : EndInv e -> EndInv (rehandshake_end e now).
+Proof. unfold EndInv, rehandshake_end. intros H. destruct (_ <? _); [exact H | reflexivity]. Qed.
+Lemma rehandshake_end_open e now : e_open (rehandshake_end e now) = e_open e.
+Proof. unfold rehandshake_end. destruct (_ <? _); reflexivity. Qed.
+
 Lemma step_inv s op : SysInv s -> SysInv (fst (step s op)).
 Proof.
   intros [Ha Hb]. destruct op as [who now]. unfold step.
-  destruct (who =? 0).
+  destruct (who =? 0); [|destruct (who =? 1); [|destruct (who =? 2)]].
   - pose proof (tick_end_inv (s_a s) now Ha) as H. destruct (tick_end (s_a s) now) as [e r]. split; [exact H | exact Hb].
   - pose proof (tick_end_inv (s_b s) now Hb) as H. destruct (tick_end (s_b s) now) as [e r]. split; [exact Ha | exact H].
+  - split; [apply rehandshake_end_inv; exact Ha | exact Hb].
+  - split; [exact Ha | apply rehandshake_end_inv; exact Hb].
 Qed.
 Lemma run_inv ops : forall s, SysInv s -> SysInv (run_ops s ops).
 Proof. unfold run_ops. induction ops as [|op r IH]; cbn [fold_left]; intros s H; [exact H | apply IH, step_inv, H]. Qed.
 
 Lemma step_open s op : e_open (s_a (fst (step s op))) = e_open (s_a s) /\ e_open (s_b (fst (step s op))) = e_open (s_b s).
 Proof.
-  destruct op as [who now]. unfold step. destruct (who =? 0).
+  destruct op as [who now]. unfold step. destruct (who =? 0); [|destruct (who =? 1); [|destruct (who =? 2)]].
   - pose proof (tick_end_open (s_a s) now) as H. destruct (tick_end (s_a s) now). cbn in *. auto.
   - pose proof (tick_end_open (s_b s) now) as H. destruct (tick_end (s_b s) now). cbn in *. auto.
+  - cbn [fst s_a s_b]. split; [apply rehandshake_end_open | reflexivity].
+  - cbn [fst s_a s_b]. split; [reflexivity | apply rehandshake_end_open].
 Qed.
 (* no rotation ever tears the session down: both ends stay open over every schedule *)
 Theorem sessions_stay_open ops : forall s,
@@ -95,22 +104,33 @@ Proof.
   destruct (IH (fst (step s op))) as [Ha Hb]. destruct (step_open s op) as [Ha' Hb']. split; congruence.
 Qed.
 
-(* an op that is not yet due on the acting node's clock *)
+(* an op that changes nothing: a tick that is not yet due on the acting node's clock, a repeated handshake inside the
+   acting node's cool-down *)
 Definition early (s : sys) (op : Z * Z) : Prop :=
   let '(who, now) := op in
   if who =? 0 then now - c_last (e_ctx (s_a s)) < e_interval (s_a s) * ns_per_s
-  else now - c_last (e_ctx (s_b s)) < e_interval (s_b s) * ns_per_s.
+  else if who =? 1 then now - c_last (e_ctx (s_b s)) < e_interval (s_b s) * ns_per_s
+  else if who =? 2 then now - e_last_hs (s_a s) < e_cooldown (s_a s) * ns_per_s
+  else now - e_last_hs (s_b s) < e_cooldown (s_b s) * ns_per_s.
 
-Lemma step_early s op : early s op -> step s op = (s, false).
+Lemma rehandshake_end_early e now : now - e_last_hs e < e_cooldown e * ns_per_s -> rehandshake_end e now = e.
+Proof. intros H. unfold rehandshake_end. destruct (Z.ltb_spec (now - e_last_hs e) (e_cooldown e * ns_per_s)); [reflexivity | lia]. Qed.
+
+Lemma step_early s op : early s op -> fst (step s op) = s.
 Proof.
-  destruct op as [who now]. unfold early, step. destruct (who =? 0); intros H; rewrite tick_end_not_due by exact H; destruct s; reflexivity.
+  destruct op as [who now]. unfold early, step.
+  destruct (who =? 0); [|destruct (who =? 1); [|destruct (who =? 2)]]; intros H.
+  - rewrite tick_end_not_due by exact H. destruct s; reflexivity.
+  - rewrite tick_end_not_due by exact H. destruct s; reflexivity.
+  - cbn [fst]. rewrite rehandshake_end_early by exact H. destruct s; reflexivity.
+  - cbn [fst]. rewrite rehandshake_end_early by exact H. destruct s; reflexivity.
 Qed.
 
 (* while neither clock has passed its interval since the handshake, nothing changes: the ends keep the common key *)
 Theorem stable_before_interval ops : forall s, Forall (early s) ops -> run_ops s ops = s.
 Proof.
   unfold run_ops. induction ops as [|op r IH]; cbn [fold_left]; intros s H; [reflexivity|].
-  inversion H as [|? ? H1 H2]; subst. rewrite step_early by exact H1. cbn [fst]. apply IH. exact H2.
+  inversion H as [|? ? H1 H2]; subst. rewrite step_early by exact H1. apply IH. exact H2.
 Qed.
 
 (* the first due tick of an end replaces its key by HMAC(shared, be64 counter || be64 OWN clock reading) *)
@@ -133,6 +153,10 @@ Proof. unfold keys_agree. apply list_eqb_spec. Qed.
 Lemma mutual_keys a b ia ib hsa hsb :
   e_session_key (s_a (mutual a b ia ib hsa hsb)) = session_key a (compute_public a) (compute_public b) /\
   e_session_key (s_b (mutual a b ia ib hsa hsb)) = session_key b (compute_public b) (compute_public a).
+Proof. split; reflexivity. Qed.
+Lemma mutual_hs_keys a b ia ib hsa hsb :
+  e_hs_key (s_a (mutual a b ia ib hsa hsb)) = session_key a (compute_public a) (compute_public b) /\
+  e_hs_key (s_b (mutual a b ia ib hsa hsb)) = session_key b (compute_public b) (compute_public a).
 Proof. split; reflexivity. Qed.
 
 Theorem mutual_agrees a b ia ib hsa hsb : 0 <= a < two32 -> 0 <= b < two32 ->
@@ -186,6 +210,30 @@ Proof. unfold step. cbn [Z.eqb]. destruct (tick_end (s_a s) now); reflexivity. Q
 Lemma step_b s now : fst (step s (1, now)) = mkSys (s_a s) (fst (tick_end (s_b s) now)).
 Proof. unfold step. cbn [Z.eqb]. destruct (tick_end (s_b s) now); reflexivity. Qed.
 
+(* ---------- tear-down and re-establishment: the re-handshake ---------- *)
+Lemma rehandshake_end_due e now : e_cooldown e * ns_per_s <= now - e_last_hs e ->
+  e_session_key (rehandshake_end e now) = e_hs_key e /\ c_counter (e_ctx (rehandshake_end e now)) = 0 /\
+  c_last (e_ctx (rehandshake_end e now)) = now /\ e_hs_key (rehandshake_end e now) = e_hs_key e.
+Proof. intros H. unfold rehandshake_end. destruct (Z.ltb_spec (now - e_last_hs e) (e_cooldown e * ns_per_s)); [lia|]. cbn. auto. Qed.
+
+Lemma tick_end_hs e now : e_hs_key (fst (tick_end e now)) = e_hs_key e.
+Proof. unfold tick_end. destruct (rotate_if_needed _ _ _); reflexivity. Qed.
+Lemma rehandshake_end_hs e now : e_hs_key (rehandshake_end e now) = e_hs_key e.
+Proof. unfold rehandshake_end. destruct (_ <? _); reflexivity. Qed.
+Lemma step_hs s op : e_hs_key (s_a (fst (step s op))) = e_hs_key (s_a s) /\ e_hs_key (s_b (fst (step s op))) = e_hs_key (s_b s).
+Proof.
+  destruct op as [who now]. unfold step. destruct (who =? 0); [|destruct (who =? 1); [|destruct (who =? 2)]].
+  - pose proof (tick_end_hs (s_a s) now) as H. destruct (tick_end (s_a s) now). cbn in *. auto.
+  - pose proof (tick_end_hs (s_b s) now) as H. destruct (tick_end (s_b s) now). cbn in *. auto.
+  - cbn [fst s_a s_b]. split; [apply rehandshake_end_hs | reflexivity].
+  - cbn [fst s_a s_b]. split; [reflexivity | apply rehandshake_end_hs].
+Qed.
+Lemma run_hs ops : forall s, e_hs_key (s_a (run_ops s ops)) = e_hs_key (s_a s) /\ e_hs_key (s_b (run_ops s ops)) = e_hs_key (s_b s).
+Proof.
+  unfold run_ops. induction ops as [|op r IH]; cbn [fold_left]; intros s; [auto|].
+  destruct (IH (fst (step s op))) as [A B]. destruct (step_hs s op) as [A' B']. split; congruence.
+Qed.
+
 Lemma synchronized_rotation_agrees s now :
   c_shared (e_ctx (s_a s)) = c_shared (e_ctx (s_b s)) -> c_counter (e_ctx (s_a s)) = c_counter (e_ctx (s_b s)) ->
   e_interval (s_a s) * ns_per_s <= now - c_last (e_ctx (s_a s)) ->
@@ -196,4 +244,25 @@ Proof.
   rewrite step_b, step_a. cbn [s_a s_b].
   destruct (tick_end_due (s_a s) now Ha) as [Ka _]. destruct (tick_end_due (s_b s) now Hb) as [Kb _].
   rewrite Ka, Kb, Hs, Hc. reflexivity.
+Qed.
+
+Lemma step_2 s t : fst (step s (2, t)) = mkSys (rehandshake_end (s_a s) t) (s_b s).
+Proof. reflexivity. Qed.
+Lemma step_3 s t : fst (step s (3, t)) = mkSys (s_a s) (rehandshake_end (s_b s) t).
+Proof. reflexivity. Qed.
+
+(* whatever happened before -- any rotations on either end -- once both ends take the handshake again (each after its
+   cool-down) they are back on one key: the re-establishment branch of the property *)
+Theorem rehandshake_reestablishes a b ia ib hsa hsb ops ta tb : 0 <= a < two32 -> 0 <= b < two32 ->
+  let s := run_ops (mutual a b ia ib hsa hsb) ops in
+  e_cooldown (s_a s) * ns_per_s <= ta - e_last_hs (s_a s) ->
+  e_cooldown (s_b s) * ns_per_s <= tb - e_last_hs (s_b s) ->
+  keys_agree (run_ops s [(2, ta); (3, tb)]) = true.
+Proof.
+  intros Ha Hb s Hca Hcb. apply keys_agree_iff. unfold run_ops at 1 2. cbn [fold_left]. rewrite step_3, step_2. cbn [s_a s_b].
+  destruct (rehandshake_end_due (s_a s) ta Hca) as [Ka _]. destruct (rehandshake_end_due (s_b s) tb Hcb) as [Kb _].
+  rewrite Ka, Kb. subst s.
+  destruct (run_hs ops (mutual a b ia ib hsa hsb)) as [A B]. rewrite A, B.
+  destruct (mutual_hs_keys a b ia ib hsa hsb) as [A' B']. rewrite A', B'.
+  exact (same_session_key a b Ha Hb).
 Qed.
